@@ -187,6 +187,53 @@ class Monitor:
                     pass
 
 
+def small_scope(mon, rng, length, shard, nshard):
+    """EVERY sequence of `length` requests on a small wallet (key 0 owns two outputs of one reward each, keys 1 and 2 one
+    each, one foreign key owns one): amounts from a grid around the output values x fee 0/5, plus 'confirm pending'"""
+    import itertools
+    import skepticoin.wallet as wmod
+    import skepticoin.consensus as cons
+    base = gen.World(rng, nkeys=5)
+    base.reuse_pending = False
+    pid = base.gid
+    for k in (0, 0, 1, 2, 3):
+        rb, real = base.assemble(pid, [], base.chain.blocks[pid].ts + 60, base.keys[k][1], route="ref")
+        pid = base.accept(rb, real, validate=False)
+    u = ref.subsidy(1)
+    amounts = [1, u // 2, u, u + 1, 2 * u, 2 * u + 1, 3 * u, 4 * u, 4 * u + 1]
+    events = [(a_, f_) for a_ in amounts for f_ in (0, 5)] + ["confirm"]
+    idx = 0
+    for seq in itertools.product(range(len(events)), repeat=length):
+        idx += 1
+        if idx % nshard != shard:
+            continue
+        world = base.fork()
+        mine = world.keys[:3]
+        wallet = wmod.Wallet({pk: sk for sk, pk in mine}, [pk for _s, pk in mine], {})
+        history = {"n": 0, "failed_before": False, "marked_by_failure": False, "spent_by_returned": set()}
+        pending = []
+        w = {"blocks": gen.blocks_hex(world, world.chain.order[1:]), "wallet_keys": [pk.hex() for pk in wallet.keypairs], "calls": [],
+             "lane": "small-scope"}
+        mon.c["small_scope_sequences"] = mon.c.get("small_scope_sequences", 0) + 1
+        for e in seq:
+            ev = events[e]
+            if ev == "confirm":
+                if pending:
+                    head = world.cs.current_chain_hash
+                    led = world.ledger(head)
+                    ok = [t for t in pending if not ref.tx_codes_in_ledger(t, led)]
+                    rb, real = world.assemble(head, ok, world.chain.blocks[head].ts + 60, world.keys[4][1], route="ref")
+                    world.accept(rb, real, validate=False)
+                    w["blocks"] = gen.blocks_hex(world, world.chain.order[1:])
+                    pending = []
+                continue
+            amount, fee = ev
+            w["calls"].append([amount, fee, world.keys[4][1].hex(), world.keys[0][1].hex()])
+            rtx = mon.call(wmod, cons, wallet, world, amount, fee, world.keys[4][1], world.keys[0][1], history, w)
+            if rtx is not None:
+                pending.append(rtx)
+
+
 def replay(mon, w):
     import skepticoin.wallet as wmod
     import skepticoin.consensus as cons
@@ -211,6 +258,7 @@ def run_shard(spec):
         rng = random.Random("c14/%d/%d" % (spec["seed"], spec["shard"]))
         for j in range(30 if spec["tier"] == "quick" else 800):
             mon.run_sequence(rng, j)
+        small_scope(mon, rng, 3 if spec["tier"] == "quick" else 4, spec["shard"], NSHARD)
     return {"evaluations": mon.c["calls"], "digests": sorted(mon.digests), "violations": mon.viol, "counters": mon.c,
             "samples": mon.samples}
 
@@ -226,6 +274,7 @@ def finalize(m, tier):
                    ("exact_no_change", c.get("exact_no_change", 0), 30), ("with_change", c.get("with_change", 0), 150),
                    ("multi_input", c.get("multi_input", 0), 100),
                    ("calls_after_a_failed_attempt", c.get("calls_after_a_failed_attempt", 0), 100),
-                   ("confirmations_between_calls", c.get("confirmations_between_calls", 0), 30)],
+                   ("confirmations_between_calls", c.get("confirmations_between_calls", 0), 30),
+                   ("small_scope_sequences", c.get("small_scope_sequences", 0), 19 ** 3)],
         "extra": {},
     }
